@@ -400,6 +400,15 @@ type gocvMsgGhost struct {
 var gocvGhostDummy gocvMsgGhost
 
 func gocv_ghostOf(m any) *gocvMsgGhost { return &gocvGhostDummy }
+// gocvExtGhost: what the protobuf runtime holds for one proto2 extension of one message.
+type gocvExtGhost struct {
+	val any
+	err error
+}
+
+var gocvExtDummy gocvExtGhost
+
+func gocv_extSlot(m any, ext any) *gocvExtGhost { return &gocvExtDummy }
 func gocv_msgSize(m any) int           { return 0 }
 func gocv_msgByte(m any, i int) byte   { return 0 }
 func gocv_sliceRef(b []byte) int       { return 0 }
